@@ -1,8 +1,12 @@
 """Interpreter for the AArch64 instruction subset used by src/core/arch/aarch64/*.s (see DESIGN.md appendix A).
 Anything outside the subset is a hard error."""
+import re
 from .expand import Program, imm
 
 M64 = (1 << 64) - 1
+
+
+X18 = re.compile(r"\b[xw]18\b")
 
 
 class SimError(Exception):
@@ -155,6 +159,10 @@ class A64:
             if pc >= len(code):
                 raise SimError("ran off the end of the text")
             ins = code[pc]
+            if X18.search(ins[-1]):
+                # the sources' own register contract: "x18 is a platform register that should not be used in portable code" (it holds
+                # per-thread platform state on Android, Fuchsia, Windows and under ShadowCallStack; a value parked there outlives the call)
+                raise SimError("uses the platform register x18: " + ins[-1])
             pc += 1
             op = ins[0]
             if op in ("adds", "adcs", "subs", "sbcs", "add", "sub"):
